@@ -207,3 +207,35 @@ Proof.
   intros Hf. destruct (comparing_catch f Hf) as [_ [hs [E Hc]]]. exists hs.
   destruct r; cbn; rewrite ?Hc; eauto.
 Qed.
+
+(* ---------- a step set to FAILED stays FAILED -------------------------------------------------------------------- *)
+
+Lemma on_last_snoc m st f : on_last (m ++ [st]) f = (m ++ [f st], MOk).
+Proof. unfold on_last. rewrite rev_app_distr. cbn. now rewrite rev_involutive. Qed.
+
+Lemma last_status_snoc m st : last_status (m ++ [st]) = Some (s_status st).
+Proof. unfold last_status. now rewrite rev_app_distr. Qed.
+
+(* every comparing function has handlers around the data checker's call, and all of them end the function *)
+Lemma handlers_return f : In f comparing_functions -> fassoc f compare_handler_returns = Some true.
+Proof. intros [<-|[<-|[<-|[<-|[<-|[<-|[]]]]]]]; vm_compute; reflexivity. Qed.
+
+(* ... hence, after a refusal of the checker, the comparing step of the report is FAILED and so is the overall
+   status at least - whatever the checks collected before the refusal say *)
+Lemma refusal_keeps_failed f m st failed passed :
+  In f comparing_functions ->
+  let m' := refusal_flow (match fassoc f compare_handler_returns with Some b => b | None => false end)
+                         failed passed (m ++ [st]) in
+  last_status m' = Some FAILED /\ rank FAILED <= rank (overall m').
+Proof.
+  intros Hf. rewrite (handlers_return f Hf). cbn [refusal_flow mstep].
+  rewrite on_last_snoc. cbn [fst]. rewrite on_last_snoc. cbn [fst].
+  split; [apply last_status_snoc|].
+  apply (proj1 (overall_worst _) (mk_step FAILED (S (s_logs st)))). apply in_or_app. right. now left.
+Qed.
+
+(* ... and the `return` is necessary: without it a refusal after only passed checks ends as a SUCCESS step *)
+Lemma refusal_without_return_loses_failed :
+  last_status (refusal_flow false 0 3 [mk_step NOT_EXECUTED 0]) = Some SUCCESS /\
+  overall (refusal_flow false 0 3 [mk_step NOT_EXECUTED 0]) = SUCCESS.
+Proof. split; vm_compute; reflexivity. Qed.
